@@ -36,6 +36,16 @@ structure Cfg where
   serialize : Bool := false
   deriving DecidableEq, Repr, Inhabited
 
+/-- what a sink may do with the logger from inside its `write` -/
+inductive InnerAct where
+  /-- `logger.info(...)`: message `j` -/
+  | log (j : Nat)
+  /-- `logger.remove(<id of the sink's own handler>)`; `k` indexes the fault oracle of `stop` -/
+  | removeSelf (k : Nat)
+  /-- `logger.complete()` -/
+  | completeSelf
+  deriving DecidableEq, Repr
+
 /-- what `sys.stderr` is while a report is printed -/
 inductive StderrMode where
   | ok | absent | fails (e : Err)
@@ -56,9 +66,9 @@ structure Env where
   stderr : Nat → Nat → StderrMode
   /-- `str(record)` raises for message `i` -/
   strFails : Nat → Bool
-  /-- `reenter i h = [j₁, j₂, …]`: the sink of `h`, while writing message `i`, first logs the messages
-      `j₁, j₂, …` through its own handler -/
-  reenter : Nat → Nat → List Nat
+  /-- `reenter i h = [a₁, a₂, …]`: the sink of `h`, while writing message `i`, first uses the logger:
+      logs a message, removes its own handler, or calls `complete()` -/
+  reenter : Nat → Nat → List InnerAct
   /-- an event loop is available when a coroutine sink receives message `i` -/
   loop : Nat → Bool
 
@@ -79,6 +89,9 @@ structure HState where
   workerAlive : Bool := false
   tasks : List Nat := []          -- scheduled, not yet awaited coroutine tasks
   sinkStopped : Bool := false
+  /-- still in `core.handlers` (only the registry-level model `Emit/Nested.lean` ever clears it: a sink that
+      removes its own handler; the handler-level functions ignore it) -/
+  published : Bool := true
   deriving DecidableEq, Repr, Inhabited
 
 inductive Src where
@@ -165,7 +178,7 @@ def rawWrite (env : Env) (c : Cfg) (i : Nat) (s : HState) : HState × Res :=
 
 /-- the logging calls a sink makes to its own handler, one after the other; the first one that raises
     ends the sink's `write` -/
-def runInner (inner : Nat → Step) : List Nat → Step
+def runInner (inner : InnerAct → Step) : List InnerAct → Step
   | [], s => ⟨s, [], .ok⟩
   | j :: rest, s =>
     let r := inner j s
@@ -174,7 +187,7 @@ def runInner (inner : Nat → Step) : List Nat → Step
     | _ => r
 
 /-- `sink.write` on the logging thread; the sink may first log to its own handler -/
-def sinkWrite (env : Env) (c : Cfg) (i : Nat) (inner : Nat → Step) : Step := fun s =>
+def sinkWrite (env : Env) (c : Cfg) (i : Nat) (inner : InnerAct → Step) : Step := fun s =>
   let r1 := runInner inner (env.reenter i c.id) s
   match r1.res with
   | .ok => let w := rawWrite env c i r1.st; ⟨w.1, r1.ev, w.2⟩
@@ -208,13 +221,13 @@ def protectedLock (body : Step) : Step := fun s =>
        r.ev, .raised e⟩
 
 /-- the statements under the lock in `emit` -/
-def lockedBody (env : Env) (c : Cfg) (i : Nat) (inner : Nat → Step) : Step := fun s =>
+def lockedBody (env : Env) (c : Cfg) (i : Nat) (inner : InnerAct → Step) : Step := fun s =>
   if s.stopped then ⟨s, [], .ok⟩
   else if c.enqueue then queuePut env c i s
   else sinkWrite env c i inner s
 
 /-- the `try` block of `Handler.emit` -/
-def emitTry (env : Env) (c : Cfg) (i : Nat) (inner : Nat → Step) : Step := fun s =>
+def emitTry (env : Env) (c : Cfg) (i : Nat) (inner : InnerAct → Step) : Step := fun s =>
   if c.level > env.level i then ⟨s, [], .ok⟩
   else
     match runPre env c i Gen.preLockStages with
@@ -228,7 +241,7 @@ def resOf : Option Err → Res
   | some e => .raised e
 
 /-- `Handler.emit` = try block + `except <Gen.emitCaught>: if not should_catch: raise; print(record)` -/
-def emitWith (env : Env) (c : Cfg) (i : Nat) (inner : Nat → Step) : Step := fun s =>
+def emitWith (env : Env) (c : Cfg) (i : Nat) (inner : InnerAct → Step) : Step := fun s =>
   let r := emitTry env c i inner s
   match r.res with
   | .raised e =>
@@ -237,12 +250,6 @@ def emitWith (env : Env) (c : Cfg) (i : Nat) (inner : Nat → Step) : Step := fu
       ⟨r.st, r.ev ++ p.1, resOf p.2⟩
     else r
   | _ => r
-
-/-- `Handler.emit` with re-entrant sinks nested at most `n` deep (`n` is universally quantified in
-    the theorems; the harness exercises depth 1) -/
-def emitD (env : Env) (c : Cfg) : Nat → Nat → Step
-  | 0, i => emitWith env c i (fun _ s => ⟨s, [], .ok⟩)
-  | n + 1, i => emitWith env c i (emitD env c n)
 
 /-! ### enqueue worker -/
 
@@ -302,14 +309,42 @@ def completeH (env : Env) (c : Cfg) : Step := fun s =>
     let t := runTasks env c s.tasks s
     ⟨t.1, t.2, .ok⟩
 
+/-- `with self._lock: body` – no re-entrancy test: taken by a thread that already holds it, it blocks -/
+def plainLock (body : Step) : Step := fun s =>
+  if s.lockHeld then ⟨s, [], .blocked⟩
+  else
+    let r := body { s with lockHeld := true }
+    match r.res with
+    | .blocked => r
+    | x => ⟨{ r.st with lockHeld := false }, r.ev, x⟩
+
+/-- the lock statement of `Handler.stop()` as the code has it (`Gen.stopUsesProtectedLock`) -/
+def stopLock (body : Step) : Step :=
+  if Gen.stopUsesProtectedLock then protectedLock body else plainLock body
+
 /-- `Handler.stop()`; `k` indexes the fault oracle -/
 def stopH (env : Env) (c : Cfg) (k : Nat) : Step :=
-  protectedLock (fun s =>
+  stopLock (fun s =>
     let s1 := { s with stopped := true }
     let w := if c.enqueue && s1.workerAlive then workerRun env c (s1.queue ++ [.sentinel]) s1 else (s1, [])
     match env.fault k c.id .stop with
     | some e => ⟨w.1, w.2, .raised e⟩
     | none => ⟨{ w.1 with sinkStopped := true, tasks := [] }, w.2, .ok⟩)
+
+/-- `tasks_to_complete()` of a non-enqueue handler: `with self._protected_lock(): return sink.tasks_to_complete()` -/
+def tasksLocked : Step :=
+  if Gen.tasksUseProtectedLock then protectedLock (fun s => ⟨s, [], .ok⟩) else plainLock (fun s => ⟨s, [], .ok⟩)
+
+/-- `Handler.emit` with sinks that use the logger nested at most `n` deep (`n` is universally quantified in
+    the theorems).  What such a sink does reaches its own handler as: another `emit` (a logging call), `stop()`
+    (`logger.remove(own id)`), `tasks_to_complete()` (`logger.complete()`). -/
+def emitD (env : Env) (c : Cfg) : Nat → Nat → Step
+  | 0, i => emitWith env c i (fun _ s => ⟨s, [], .ok⟩)
+  | n + 1, i => emitWith env c i (fun a =>
+      match a with
+      | .log j => emitD env c n j
+      | .removeSelf k => stopH env c k
+      | .completeSelf => tasksLocked)
 
 /-! ### the logger: registry, `_log` loop, `remove`, `complete` -/
 
